@@ -268,8 +268,23 @@ func (e *Engine) runOnce(ops []string, res *report.Result) *report.Failure {
 		return fail("oracle", "requests did not return within 10 s: "+strings.Join(stuck, " ; "), "every request returns", "blocked", "e7:C16:deadlock")
 	}
 	toxiproxy.VerifYield = func(string) {}
+	// the observation the search has to explain: registry and bound ports, taken when every
+	// request has returned (nothing changes them any more: stop() waits for the listener to be
+	// closed, a failed start has bound nothing) - measured until two consecutive looks agree, so
+	// that a dial that timed out on a loaded machine is not mistaken for a free port
 	_, final := e.E4.Do(h, "GET", "/proxies", false, "-")
 	ports := e.boundPorts()
+	for look := 0; look < 5; look++ {
+		time.Sleep(2 * time.Millisecond)
+		_, final2 := e.E4.Do(h, "GET", "/proxies", false, "-")
+		ports2 := e.boundPorts()
+		if final2 == final && ports2 == ports {
+			break
+		}
+		res.Count("observation-repeated")
+		final, ports = final2, ports2
+		time.Sleep(50 * time.Millisecond)
+	}
 	// ---- C06, under concurrency: a create that was refused (4xx) has left nothing behind - in
 	// particular no listener on the address it named that no enabled proxy of the registry owns
 	// (not when a ProxyUpdate or a populate runs alongside: the recorded races of ProxyUpdate leave
@@ -335,6 +350,20 @@ func (e *Engine) runOnce(ops []string, res *report.Result) *report.Failure {
 		isPop[k] = len(f) > 1 && f[0] == "POST" && strings.Trim(f[1], "/") == "populate"
 	}
 	atomicPop := false // block-level search with every populate still one block
+	// splitStopped: `AddOrReplace` is two blocks also when the proxy it replaces is stopped (its
+	// `existing.Stop()` then does nothing, but the window up to `proxy.Start()` is there all the
+	// same); false: only the replacement of a running proxy is split
+	splitStopped := false
+	popName := make([]string, n)
+	for k, c := range calls {
+		if m := popNameRe.FindStringSubmatch(c.op); isPop[k] && m != nil {
+			popName[k] = m[1]
+		}
+	}
+	// whether the proxy a populate is about to replace is running in the model's registry now
+	existingRunning := func(k int) bool {
+		return regexp.MustCompile(`P\(` + regexp.QuoteMeta(popName[k]) + `\|[^|()]*\|[^|()]*\|1\|`).MatchString(e.D.Ask("state"))
+	}
 	var dfs func(atomic bool, left int) bool
 	dfs = func(atomic bool, left int) bool {
 		if left == 0 {
@@ -372,11 +401,12 @@ func (e *Engine) runOnce(ops []string, res *report.Result) *report.Failure {
 				return false
 			}
 			nodes++
-			e.D.Ask("push")
 			wasStarted := started[k]
+			through := atomic || (isPop[k] && (atomicPop || (!splitStopped && !wasStarted && !existingRunning(k))))
+			e.D.Ask("push")
 			started[k] = true
 			m := e.D.Ask(fmt.Sprintf("adv %d", k))
-			for (atomic || (atomicPop && isPop[k])) && m == "more" {
+			for through && m == "more" {
 				m = e.D.Ask(fmt.Sprintf("adv %d", k))
 			}
 			ok := false
@@ -409,33 +439,40 @@ func (e *Engine) runOnce(ops []string, res *report.Result) *report.Failure {
 	okAtomic := dfs(true, n)
 	okBlocks := false
 	okReplace := false
+	okReplaceStopped := false
 	blockSearch := func() {
 		nodes = 0
 		atomicPop = true
+		splitStopped = false
 		dead = map[string]bool{}
 		okBlocks = dfs(false, n)
-		if !okBlocks && nodes < budget {
-			// … and with `AddOrReplace` as the two steps it is
-			hasPop := false
-			for k := range isPop {
-				hasPop = hasPop || isPop[k]
-			}
-			if hasPop {
+		hasPop := false
+		for k := range isPop {
+			hasPop = hasPop || isPop[k]
+		}
+		if !okBlocks && nodes < budget && hasPop {
+			// … and with `AddOrReplace` as the two steps it is, when it replaces a running proxy
+			nodes = 0
+			atomicPop = false
+			dead = map[string]bool{}
+			okReplace = dfs(false, n)
+			if !okReplace && nodes < budget {
+				// … and also when it replaces a stopped one
 				nodes = 0
-				atomicPop = false
+				splitStopped = true
 				dead = map[string]bool{}
-				okReplace = dfs(false, n)
+				okReplaceStopped = dfs(false, n)
 			}
 		}
 	}
 	if !okAtomic {
 		blockSearch()
-		if !okBlocks && !okReplace && nodes >= budget {
+		if !okBlocks && !okReplace && !okReplaceStopped && nodes >= budget {
 			// the block-level search ran out of budget: once more with ten times as much
 			budget *= 10
 			blockSearch()
 		}
-		if !okBlocks && !okReplace && nodes >= budget {
+		if !okBlocks && !okReplace && !okReplaceStopped && nodes >= budget {
 			// Still undecided: the history is not atomic (that search is complete), but whether one of
 			// the recorded races of ProxyUpdate explains it could not be settled. An undecided search
 			// is not a finding; it is counted, and the sweep goes on with other histories.
@@ -462,6 +499,9 @@ func (e *Engine) runOnce(ops []string, res *report.Result) *report.Failure {
 		case okReplace:
 			return fail("oracle", what+" — explained at block level by a populate replacing a running proxy: AddOrReplace stops the old proxy and starts the new one in two steps, and a ProxyUpdate (which does not take the collection lock) acted in between",
 				"some sequential order", impl, "e7:C16:replace-stop-start-interleaved")
+		case okReplaceStopped:
+			return fail("oracle", what+" — explained at block level by a populate replacing a stopped proxy: between AddOrReplace's existing.Stop() (nothing to stop) and its proxy.Start(), a ProxyUpdate (which does not take the collection lock) started the old object again",
+				"some sequential order", impl, "e7:C16:replace-of-stopped-proxy-interleaved")
 		default:
 			return fail("oracle", what+" — and no interleaving of the handlers' blocks explains it either", "some sequential order", impl, "e7:C16:not-linearizable:"+shapeOf(calls))
 		}
@@ -504,5 +544,6 @@ func shapeOf(calls []*call) string {
 }
 
 var listenPortRe = regexp.MustCompile(`"listen":"[^"]*:(\d+)"`)
+var popNameRe = regexp.MustCompile(`"name":"([^"]*)"`)
 
 var _ http.Handler
